@@ -71,6 +71,7 @@ func tlv8WriterItems(c *core.Ctx) {
 	if f := p.Func("tlv8", "(*writer).writeBool"); f != nil {
 		isB := func(v ssa.Value) bool { return len(f.Params) > 2 && v == ssa.Value(f.Params[2]) }
 		good, n := true, 0
+		phiOK := false
 		core.Instrs(f, func(i ssa.Instruction) {
 			g := core.Callee(i)
 			if g == nil || cn(g) != "write" {
@@ -87,6 +88,36 @@ func tlv8WriterItems(c *core.Ctx) {
 								if st, ok := rr.(*ssa.Store); ok {
 									if v, isK := core.ConstInt(st.Val); isK {
 										k = v
+									}
+									// one write of a value chosen before: var v byte; if b { v = 1 }; write({tag, 1, v})
+									if ph, isPhi := st.Val.(*ssa.Phi); isPhi {
+										okPhi := len(ph.Edges) == 2
+										seen := map[int64]bool{}
+										for e, ev := range ph.Edges {
+											kv, isK := core.ConstInt(ev)
+											if !isK || (kv != 0 && kv != 1) {
+												okPhi = false
+												continue
+											}
+											seen[kv] = true
+											fact := core.FalseFact(isB)
+											if kv == 1 {
+												fact = core.TrueFact(isB)
+											}
+											pred := ph.Block().Preds[e]
+											onEdge := false
+											for idx, sc := range pred.Succs {
+												if sc == ph.Block() && core.CutWhere(fact)(pred, idx) {
+													onEdge = true
+												}
+											}
+											if !onEdge && !core.Dominated(pred.Instrs[len(pred.Instrs)-1], fact) {
+												okPhi = false
+											}
+										}
+										if okPhi && seen[0] && seen[1] {
+											phiOK = true
+										}
 									}
 								}
 							}
@@ -108,7 +139,7 @@ func tlv8WriterItems(c *core.Ctx) {
 				}
 			}
 		})
-		c.Check(good && n == 2, "tlv8-bool@"+fname(f), f.Pos(), "true is written as 1 and false as 0", "writeBool writes 1 for false (or 0 for true), or one of the two is never written")
+		c.Check((good && n == 2) || (phiOK && n == 0), "tlv8-bool@"+fname(f), f.Pos(), "true is written as 1 and false as 0", "writeBool writes 1 for false (or 0 for true), or one of the two is never written")
 	}
 	for _, spec := range []struct{ name, via string }{{"writeString", "writeBytes"}, {"writeByte", "write"}} {
 		f := p.Func("tlv8", "(*writer)."+spec.name)
